@@ -602,7 +602,7 @@ def buffer_item(cfg, col):
 # Part B: modules
 # ==========================================================================================
 
-MODULES = ["MLP", "LayerNormMLP", "GaussianMLP-shared", "GaussianMLP-separate", "DeterministicTanhPolicy", "GaussianTanhPolicy",
+MODULES = ["MLP", "MLP-12-layers", "LayerNormMLP", "GaussianMLP-shared", "GaussianMLP-separate", "DeterministicTanhPolicy", "GaussianTanhPolicy",
            "SoftmaxPolicy", "ContinuousClippedDoubleQNet", "td7.embedding", "td7.actor", "td7.critic",
            "mrq.policy_with_encoder", "mrq.q", "GaussianMLPEnsemble"]
 PSETS = ["init", "perturbed"]
@@ -640,6 +640,9 @@ def build(kind, s, alt):
     r = nnx.Rngs(s)
     if kind == "MLP":
         return MLP(2, 2, [3], "relu", r)
+    if kind == "MLP-12-layers":
+        # more than ten entries in one layer list: a restore that orders path keys as strings ('10' < '2') shuffles them
+        return MLP(2, 2, [3] * 12, "tanh", r)
     if kind == "LayerNormMLP":
         return LayerNormMLP(2, 2, [3], "elu", rngs=r)
     if kind == "GaussianMLP-shared":
